@@ -76,13 +76,13 @@ theorem keep_remove (j a b : Nat) (s : Db) (idx : Nat) (x : Bool) (hj : j ≠ id
         simp only []
         split
         · split
-          · exact keep_of_eq _ _ _ _ _ rfl rfl rfl
-          · exact keep_of_eq _ _ _ _ _ rfl rfl rfl
-        · exact keep_of_eq _ _ _ _ _ rfl rfl rfl
+          · exact keep_of_eq _ _ _ _ _ rfl rfl rfl rfl
+          · exact keep_of_eq _ _ _ _ _ rfl rfl rfl rfl
+        · exact keep_of_eq _ _ _ _ _ rfl rfl rfl rfl
       split
       · exact hl
       · refine hl.trans ((keep_setSlot_ne j a b _ idx none hj).trans ?_)
-        exact ⟨rfl, ⟨[_], rfl, by intro e he; rw [List.mem_singleton] at he; rw [he]; trivial⟩, Nat.le_refl _⟩
+        exact ⟨rfl, ⟨[_], rfl, by intro e he; rw [List.mem_singleton] at he; rw [he]; exact Ne.symm hj⟩, Nat.le_refl _, by simp⟩
 
 theorem md_of_keep {j a b : Nat} {s s' : Db} (h : Keep j a b s s') (slj : Slot) (hs : s.slot? j = some slj) :
     ∃ slj', s'.slot? j = some slj' ∧ slj'.md = slj.md := by
@@ -128,7 +128,7 @@ theorem keep_retain (j a b : Nat) (s : Db) (keep : List RegionId) (slj : Slot) (
 /-! ## flush: no store at all -/
 
 theorem keep_takeAllDirty (j a b : Nat) (s : Db) : Keep j a b s s.takeAllDirty := by
-  refine ⟨?_, ⟨[], by simp [Db.takeAllDirty], by simp⟩, Nat.le_refl _⟩
+  refine ⟨?_, ⟨[], by simp [Db.takeAllDirty], by simp⟩, Nat.le_refl _, Nat.le_refl _⟩
   unfold Db.takeAllDirty Db.slot?
   simp only [List.getElem?_map]
   cases s.slots[j]? with
@@ -167,6 +167,6 @@ theorem keep_flushPre (j a b : Nat) (s : Db) : Keep j a b s (flushPre s) := by
 
 theorem keep_flush (j a b : Nat) (s : Db) : Keep j a b s s.flush.1 := by
   rw [flush_eq]
-  exact (keep_flushPre j a b s).trans (keep_of_eq _ _ _ _ _ rfl rfl rfl)
+  exact (keep_flushPre j a b s).trans (keep_of_eq _ _ _ _ _ rfl rfl rfl rfl)
 
 end AnyDB.C05r
